@@ -160,4 +160,153 @@ def obligations(tier):
             + (["unterminated_output"] if p["L"] >= 1 else [])
             + (["msg_Z"] if p["L"] >= 2 else [])
             + (["r_then_K", "s_then_K", "h_then_K"] if p["L"] >= 4 else [])),
+    ] + stall_obligations(tier)
+
+
+# ---- stalls and disconnects (tag h3): the units that turn a stalled or vanished peer into an error, and the
+# saferead()/safewrite() wrappers that act on it.  The harnesses above (and C05/C06/C07/C19) replace the network by ideal
+# streams whose read hook may say "ended"; these obligations close that cut.  Borrowed into C05 and C07.
+#
+# kills (hand-made mutants of /repo in scratch worktrees, each VIOLATION with a native replay rc 1 unless noted): see the
+# `# kills:` comment next to each Obl.
+def stall_obligations(tier):
+    quick = tier == "quick"
+    rw = dict(
+        sysrename=["select", "read", "write"],
+        grid=[{"LEN": n} for n in ([1, 4] if quick else [0, 1, 2, 4, 8])],
+        # FD_ZERO is a 16-iteration loop (17 with the exit test) inside the function under test; the harness compares
+        # the 16 words of an fd_set and LEN+1 buffer bytes
+        unwind_default=18, unwind=lambda p: {"vmain": p["LEN"] + 3, "one_io": p["LEN"] + 2},
+        timeout=300,
+        stubs=["select: checks the sets and the timeout it is given; fails with any errno, times out (set cleared) or reports the descriptor ready; "
+               "stores an arbitrary remaining time", "read/write: one call with symbolic result -1..LEN and errno; read stores symbolic bytes"],
+        assumes=["descriptor 0..FD_SETSIZE-1 (symbolic), t any int >= 0, previous errno arbitrary, buffer of LEN bytes"],
+        outside=["descriptors >= FD_SETSIZE (undefined for select(2)); a kernel whose select() reports readiness wrongly"])
+    return [
+        # kills: timeoutread.c  `tv.tv_sec = t` -> `t + 1`; `tv.tv_usec = 0` -> `= t`; `select(fd + 1` -> `select(fd`;
+        #          `== -1) return -1` dropped (read attempted after EINTR); `errno = error_timeout` dropped;
+        #          `errno = error_timeout; return -1` -> `return 0` (stall reported as end of data);
+        #          `FD_ISSET(fd,&rfds)` -> `!FD_ISSET` / -> `1`; rfds passed as the write set; `read(fd,buf,len)` -> `len - 1`;
+        #          FD_ZERO dropped (cbmc: uninitialised set; reproduces natively because the replay build dirties the stack first)
+        #        (11 of 11 tried)
+        Obl("timeoutread_unit", "timeout_rw.c", repo=["timeoutread.c"], defines={"WR": 0},
+            functions=["timeoutread.c:timeoutread"],
+            claim="timeoutread(t,fd,buf,len) = -1/ETIMEDOUT iff select() on exactly {fd} (read set) with timeout exactly t s did not report fd ready; "
+                  "-1 with select's errno if select fails; otherwise exactly the result, errno and buffer contents of ONE read(fd,buf,len)",
+            expect_witnesses=lambda p: ["select_failed", "timed_out", "io_error", "end_of_file_or_nothing_written", "io_error_is_itself_etimedout",
+                                        "descriptor_0", "descriptor_64", "descriptor_1023", "done"]
+            + (["full_transfer"] if p["LEN"] >= 1 else []) + (["short_transfer"] if p["LEN"] >= 2 else []), **rw),
+        # kills: timeoutwrite.c the same eleven edits (tv_sec t+1, tv_usec, select(fd, missing -1 test, missing errno, return 0,
+        #          !FD_ISSET, `if (1)`, wfds passed as the read set, write(fd,buf,len-1), FD_ZERO dropped)
+        Obl("timeoutwrite_unit", "timeout_rw.c", repo=["timeoutwrite.c"], defines={"WR": 1},
+            functions=["timeoutwrite.c:timeoutwrite"],
+            claim="timeoutwrite(t,fd,buf,len) = -1/ETIMEDOUT iff select() on exactly {fd} (write set) with timeout exactly t s did not report fd "
+                  "writable; -1 with select's errno if select fails; otherwise exactly the result and errno of ONE write(fd,buf,len)",
+            expect_witnesses=lambda p: ["select_failed", "timed_out", "io_error", "end_of_file_or_nothing_written", "io_error_is_itself_etimedout",
+                                        "descriptor_0", "descriptor_64", "descriptor_1023", "done"]
+            + (["full_transfer"] if p["LEN"] >= 1 else []) + (["short_transfer"] if p["LEN"] >= 2 else []), **rw),
+        # kills: timeoutconn.c  ndelay_on() call dropped; either ndelay_off() dropped; port bytes swapped; `&& (errno != error_wouldblock)`
+        #          dropped; `&&` -> `||`; getpeername() test -> `if (0)` (writable taken for connected); `== -1` -> `== 0`;
+        #          `errno = error_timeout` dropped; final `return -1` -> `return 0`; `tv.tv_sec = timeout - 1`; select() `== -1` test
+        #          dropped; byte_copy(...,3,ip); `select(s,`; wfds passed as the read set; FD_ZERO dropped; connect failure errno
+        #          overwritten with error_timeout
+        #        ndelay_off.c `& ~O_NONBLOCK` -> `| O_NONBLOCK`; F_SETFL -> F_GETFL;   ndelay.c `| O_NONBLOCK` -> `& O_NONBLOCK`
+        #        (20 of 21 tried)  NOT killed, by design: `read(s,&ch,1)` dropped - errno is then getpeername()'s ENOTCONN instead of
+        #          the socket's own error; no document says which, both are accepted (still -1, still not ETIMEDOUT unless one says so)
+        Obl("timeoutconn_unit", "timeout_conn.c",
+            repo=["timeoutconn.c", "ndelay.c", "ndelay_off.c", "byte_copy.c", "byte_zero.c"],
+            sysrename=["connect", "select", "getpeername", "read", "fcntl"],
+            grid=[{}],
+            unwind_default=18,          # FD_ZERO (16 words), byte_zero/byte_copy on 16/4 bytes, harness loops over 16 words/bytes
+            timeout=300,
+            functions=["timeoutconn.c:timeoutconn", "ndelay.c:ndelay_on", "ndelay_off.c:ndelay_off", "byte_copy.c", "byte_zero.c"],
+            stubs=["fcntl: file status flags of the socket (symbolic before the call), fails only for a bad descriptor",
+                   "connect: checks address/port/non-blocking mode; 0, or -1 with any errno", "select: checks sets and timeout; -1 / timed out / writable",
+                   "getpeername: 0 (connected, stores a peer address) or -1 with any errno; read: -1 with any errno (the pending socket error)"],
+            assumes=["socket 0..FD_SETSIZE-1, timeout any int >= 0, port <= 65535, any IPv4 address, arbitrary previous errno and file status flags"],
+            outside=["that the kernel's getpeername() fails iff the connect failed (UNIX semantics the code relies on)", "IPv6", "ports > 65535"],
+            claim="timeoutconn() returns 0 only if the connection to exactly the given address/port was established (at once, or in progress + writable "
+                  "within exactly `timeout` s + completion check passed), with the socket back in blocking mode; -1/ETIMEDOUT iff not writable in time; "
+                  "-1 with connect's/select's errno on their failures; -1 when the completion check fails; connect() is issued non-blocking",
+            expect_witnesses=["bad_descriptor", "connected_at_once", "refused_at_once", "connect_itself_says_etimedout", "select_failed", "timed_out",
+                              "connected_after_wait", "connected_after_ewouldblock", "refused_after_wait", "kernel_timeout_after_wait",
+                              "was_nonblocking_before", "descriptor_1023", "done"]),
+        # kills: timeoutread.h GEN_SAFE_TIMEOUTREAD  `r == 0 ||` dropped (EOF returned to substdio); `|| r == -1` dropped;
+        #          `readfd` -> `fd` (reads descriptor -1)
+        #        timeoutwrite.h GEN_SAFE_TIMEOUTWRITE  `doexit` dropped; `r == 0 ||` dropped
+        #        qmail-remote.c  saferead built with timeoutconnect instead of timeout; smtpfrom wired to read() instead of saferead;
+        #          safewrite's dropped() -> _exit(0) (no report at all); safewrite clears flagcritical before dropped()
+        #        (9 of 9 tried)
+        Obl("remote_safeio", "safeio.c",
+            progs=[Prog("qmail-remote.c", nomain=True, cut=["dropped"])], lib=["ideal_substdio.c"],
+            defines={"PROG": 5}, sysrename=["_exit", "read", "write"],
+            grid=[{"DIR": d, "RL": rl, "LEN": ln} for (rl, ln) in SAFEIO_SIZES(quick) for d in (0, 1)],
+            unwind_default=lambda p: p["RL"] + 32, unwind=lambda p: {"ideal_flush": p["RL"] + 31},
+            timeout=300,
+            functions=["qmail-remote.c:saferead", "qmail-remote.c:safewrite", "timeoutread.h:GEN_SAFE_TIMEOUTREAD", "timeoutwrite.h:GEN_SAFE_TIMEOUTWRITE",
+                       "qmail-remote.c:smtpfrom", "qmail-remote.c:smtpto"],
+            cuts=["dropped -> observing stub that ends the run (what dropped() reports: obligation dropped_quit)"],
+            stubs=SAFEIO_STUBS,
+            assumes=["RL command bytes pending, read buffer of LEN bytes, any split into short writes; timeoutremote any int >= 0, any socket number, flagcritical 0/1"],
+            outside=["results < -1 of timeoutread/timeoutwrite (excluded by timeoutread_unit/timeoutwrite_unit + read(2)/write(2))"],
+            claim="qmail-remote: a read or write on the SMTP connection that ends with a result <= 0 (EOF, error, timeout) always ends in dropped(), "
+                  "flagcritical untouched, never in a return to substdio; positive counts and the data are passed through unchanged; both go "
+                  "through timeoutread/timeoutwrite with timeoutremote on smtpfd",
+            expect_witnesses=lambda p: safeio_witnesses(5, p["DIR"], p["RL"], p["LEN"])),
+        # kills: qmail-smtpd.c saferead  flush() dropped; flush() moved behind timeoutread(); `errno == error_timeout` -> `!=`;
+        #          `r == 0 ||` dropped; timeoutread(1200,...) instead of the control value; die_read() emptied;
+        #          die_alarm  flush() dropped; "451" -> "250";   safewrite's _exit(1) replaced by `errno = 0`
+        #        qmail-qmtpd.c  saferead: substdio_flush(&ssout) dropped; `r == 0 ||` dropped;  safewrite: `r == 0 ||` dropped
+        #        qmail-qmqpd.c  saferead: `r == 0 ||` dropped;  safewrite: _exit(0) dropped
+        #        qmail-pop3d.c  timeout 1200 -> 12000; ssin wired to read();   qmail-popup.c  ssout on descriptor 0
+        #        timeoutread.h / timeoutwrite.h macro edits above (pop3d, popup, smtpd's safewrite)
+        #        (19 of 20 tried)  NOT killed: die_alarm() without its _exit(1) - equivalent: saferead() then falls into die_read(), which
+        #          exits with the 451 already flushed
+        Obl("smtpd_safeio", "safeio.c",
+            progs=[Prog("qmail-smtpd.c", nomain=True), Prog("qmail-qmtpd.c", sub=[(r"^main\(\)", "qmtpd_main()", 1)]),
+                   Prog("qmail-qmqpd.c", sub=[(r"^main\(\)", "qmqpd_main()", 1)]), Prog("qmail-pop3d.c", nomain=True),
+                   Prog("qmail-popup.c", nomain=True)],
+            lib=["ideal_substdio.c"], sysrename=["_exit", "read", "write"],
+            grid=[{"PROG": g, "DIR": d, "RL": rl, "LEN": ln} for (rl, ln) in SAFEIO_SIZES(quick) for g in range(5) for d in (0, 1)],
+            unwind_default=lambda p: p["RL"] + 32, unwind=lambda p: {"ideal_flush": p["RL"] + 31},
+            timeout=300,
+            functions=["qmail-smtpd.c:saferead", "qmail-smtpd.c:safewrite", "qmail-smtpd.c:flush", "qmail-smtpd.c:out", "qmail-smtpd.c:die_read",
+                       "qmail-smtpd.c:die_alarm", "qmail-qmtpd.c:saferead", "qmail-qmtpd.c:safewrite", "qmail-qmqpd.c:saferead",
+                       "qmail-qmqpd.c:safewrite", "qmail-pop3d.c:saferead", "qmail-pop3d.c:safewrite", "qmail-pop3d.c:die",
+                       "qmail-popup.c:saferead", "qmail-popup.c:safewrite", "qmail-popup.c:die",
+                       "timeoutread.h:GEN_SAFE_TIMEOUTREAD", "timeoutwrite.h:GEN_SAFE_TIMEOUTWRITE", "ssin/ssout of each program"],
+            stubs=SAFEIO_STUBS + ["qmail_close: must be unreachable"],
+            assumes=["PROG 0..4 = qmail-smtpd, -qmtpd, -qmqpd, -pop3d, -popup; RL reply bytes pending, read buffer of LEN bytes, any split into short writes; "
+                     "timeoutsmtpd any int >= 0"],
+            outside=["SIGALRM (alarm(3600)) as the stall guard of qmail-qmtpd/qmail-qmqpd, which read and write without select()",
+                     "the exit status (no document constrains it)"],
+            claim="in every network daemon a read or write on the connection that ends with a result <= 0 ends the process at once - never a return "
+                  "to substdio, no further I/O, no qmail_close(); positive counts and data pass unchanged; smtpd and qmtpd flush all pending replies "
+                  "before they wait for input; smtpd answers a read timeout with a flushed 4xx line; smtpd/pop3d/popup wait through "
+                  "timeoutread/timeoutwrite with timeoutsmtpd / 1200 s on descriptors 0 and 1",
+            expect_witnesses=lambda p: safeio_witnesses(p["PROG"], p["DIR"], p["RL"], p["LEN"])),
     ]
+
+
+def SAFEIO_SIZES(quick):          # (pending reply bytes, read buffer length)
+    return [(2, 3)] if quick else [(2, 3), (1, 1), (6, 8)]
+
+
+SAFEIO_STUBS = ["timeoutread/timeoutwrite (smtpd, pop3d, popup, remote) or read/write (qmtpd, qmqpd): one symbolic result per call: -1 with any errno, 0, "
+                "or a count up to the length asked for (short transfers); read stores symbolic bytes",
+                "output stream: ideal stream whose flush hook offers the unsent bytes to the stream's real op until all are taken (= allwrite, C20 l0_substdio_out)",
+                "_exit: observer, ends the path"]
+
+
+def safeio_witnesses(prog, d, rl=2, ln=3):
+    flushes = prog in (0, 1)
+    w = ["done"]
+    wr = ["gave_up_on_failed_write", "gave_up_on_write_of_nothing"] + (["gave_up_on_failed_second_write"] if rl >= 2 else [])
+    if d == 1:
+        return w + ["written"] + (["written_in_pieces"] if rl >= 2 else []) + wr
+    w += ["read_passed_through", "gave_up_on_end_of_file", "gave_up_on_timeout", "gave_up_on_read_error"] + (["short_read"] if ln >= 2 else [])
+    if flushes:
+        w += wr + (["reply_flushed_in_pieces_before_read"] if rl >= 2 else [])
+    if prog == 0:
+        w += ["timeout_reply_sent", "gave_up_on_failed_write_of_the_timeout_reply"]
+    return w
